@@ -300,8 +300,9 @@ def _report(mod, prop, tier, seed, cases, results, capped, wall) -> int:
         "wall_s": round(wall, 2),
         "violations": n_viol,
     }
-    os.makedirs(os.path.join(compat.VERIF_ROOT, "evidence"), exist_ok=True)
-    with open(os.path.join(compat.VERIF_ROOT, "evidence", f"{prop}.json"), "w") as f:
+    evdir = os.environ.get("VERIF_EVIDENCE_DIR") or os.path.join(compat.VERIF_ROOT, "evidence")
+    os.makedirs(evdir, exist_ok=True)
+    with open(os.path.join(evdir, f"{prop}.json"), "w") as f:
         json.dump(ev, f, indent=1, sort_keys=True)
     print(
         f"[{prop} {tier} seed={seed}] cases={len(results)}/{len(cases)} ok={len(ok)} skipped={len(skipped)} "
@@ -324,7 +325,7 @@ def _report(mod, prop, tier, seed, cases, results, capped, wall) -> int:
 
 
 def write_replay(mod, prop, tier, seed, case, violations) -> str:
-    d = os.path.join(compat.VERIF_ROOT, "replay", prop)
+    d = os.path.join(os.environ.get("VERIF_REPLAY_DIR") or os.path.join(compat.VERIF_ROOT, "replay"), prop)
     os.makedirs(d, exist_ok=True)
     cid = hashlib.sha256(case["id"].encode()).hexdigest()[:12]
     path = os.path.join(d, f"{cid}.json")
